@@ -118,3 +118,18 @@ package hintdetail
 //@   props C19 C07 C11
 //@   requires err != nil
 //@   ensures seqEq(result, detailsAcc(err, nil))
+
+// ---- C09: what the hint / detail layers hand to the format engine ----
+//@ method (*withHint).FormatError
+//@   props C09 C19
+//@   requires p != nil
+//@   ensures result == self.cause
+//@   ensures pDetail(p) ==> len($pargs) == len(old($pargs)) + 1 && $pargs[len(old($pargs))] == ifaceOf(self.hint)
+//@   ensures !pDetail(p) ==> $pargs == old($pargs)
+
+//@ method (*withDetail).FormatError
+//@   props C09 C19
+//@   requires p != nil
+//@   ensures result == self.cause
+//@   ensures pDetail(p) ==> len($pargs) == len(old($pargs)) + 1 && $pargs[len(old($pargs))] == ifaceOf(self.detail)
+//@   ensures !pDetail(p) ==> $pargs == old($pargs)
